@@ -5,16 +5,19 @@ from common import T_COMMON
 #     sin*cos*radius turns into a few ulps; values that are mathematically 0 (cos(pi/2)*r = 6e-17*r, sin(pi)*r, ...)
 #     differ by many ulps but by < 1e-16*size absolutely, hence the absolute term (sizes are kept <= 100);
 #   * the bottom cap of the cylinder and five faces of the six-quad box are rotated by quaternions in the
-#     implementation and written in exact form (x,-y,-z / corner signs) in the model: agreement to ~1e-16*size.
+#     implementation; the driver runs the SAME construction (Model/SolidsCode.lean over the regenerated quaternion code
+#     of Gen/Transform.lean) at Float; remaining differences: sin/cos of the rotation angle and Go's exact constant
+#     folding of math.Pi*(3./2.) vs one Float multiplication: ~1e-16*size.
 # Measured (seeds 0..3, both tiers): sphere family <= 4 ulps on every token differing by more than 1e-16 (up to 16 ulps on
 # near-zero tokens, absolute difference < 1e-16); rotated parts <= 1.1e-14 absolute at size 100, <= 2.3e-16 on unit normals.
 _SIN = (8, 1e-14)     # positions of sphere / unwelded sphere / hemisphere
 _SINN = (8, 1e-15)    # unit normals of the sphere
-_ROT = (8, 1e-13)     # positions of the capped cylinder and of the six-quad box
+_ROT = (8, 1e-14)     # positions of the capped cylinder and of the six-quad box
 _ROTN = (8, 1e-15)    # their unit normals
 
 CFG = dict(
-    gen=[dict(tool="facts", mode="c18.cube", out="CubeTable.lean")],
+    # Transform.lean: the quaternion code (FromTheta, Rotate) the six-quad box and the cylinder's bottom cap are built with
+    gen=[dict(tool="facts", mode="c18.cube", out="CubeTable.lean"), dict(spec="transform.json", out="Transform.lean")],
     # theorems: maintained by the C18 builder
     theorems=["uvSphere_closed", "uvSphereUnwelded_closed_mod_merge", "hemisphere_closed", "cylinder_closed_mod_merge",
               "cubeWelded_closed", "quadTris_eq_table", "cubeQuads_closed_mod_merge",
@@ -27,7 +30,9 @@ CFG = dict(
               "hemisphere_volume", "hemisphere_volume_bounds",
               "uvSphere_positions_distinct", "uvSphereUnwelded_merge_exact", "cylinder_merge_exact",
               "cubeQuads_merge_exact", "cubeWelded_positions_distinct",
-              "hemisphere_positions_distinct", "closed_iff_every_edge_once"],
+              "hemisphere_positions_distinct", "closed_iff_every_edge_once",
+              "cubeQuads_positions_eq_table", "cubeQuads_normals_eq_table",
+              "cylinder_positions_eq_exact_form", "cylinder_normals_eq_exact_form"],
     streams=[dict(name="c18", n=dict(quick=30, thorough=60),
                   ulps={"c18.pos.sphere": _SIN, "c18.pos.sphereu": _SIN, "c18.pos.hemi": _SIN, "c18.nrm.sphere": _SINN,
                         "c18.pos.cyl": _ROT, "c18.nrm.cyl": _ROTN, "c18.pos.cubeq": _ROT, "c18.nrm.cubeq": _ROTN})],
@@ -35,12 +40,13 @@ CFG = dict(
         "engine F extractor /verif/go/facts mode c18.cube (go/ast; cubeVertIndices, potentialVerts sign pattern, quad index/sign literals; any unrecognised shape is an error, never a guess)",
         "c18 harness: reads the implementation's meshes through Mesh.Indices/Float3Attribute; position classes computed in Go with a uniform grid (coincide iff distance <= 1e-9*size)",
         "PolyVerif/Model/SolidsOracle.lean + Driver/C18.lean (oracle evaluation): sort-based closedness check used alone above 1200 directed edges, cross-checked against the literal `decide (ClosedMod ..)` on every mesh below that size (both must hold); chunked evaluation of the per-triangle predicates; Float volume formulas of the stacked-frusta / prism polyhedra",
-        "sin/cos: Go math.Sin/Cos vs libm compared within 8 ulps or 1e-14 absolute (positions of sphere, hemisphere; 1e-15 for unit normals); quaternion-rotated parts (cylinder bottom cap, six-quad box) compared with the exact form within 1e-13 absolute (sizes <= 100; 1e-15 for unit normals)",
+        "sin/cos: Go math.Sin/Cos vs libm compared within 8 ulps or 1e-14 absolute (positions of sphere, hemisphere, cylinder, six-quad box; sizes <= 100; 1e-15 for unit normals); the quaternion-rotated parts (cylinder bottom cap, six-quad box) are modelled as the code builds them (Model/SolidsCode.lean over the regenerated Gen/Transform.lean quaternion code, engine T) and run at Float",
     ],
     residue=[
         "the theorems are about the model (Model/Solids.lean); that the Go constructors emit exactly the model's index lists, vertex counts and panics is corresponded exactly for every (rows, cols), sides <= 24 (thorough; <= 10 quick) and sampled up to 512, not proved",
         "positions/normals: the implementation's float64 values agree with the model at Float up to the stated tolerances (observed on every run, not proved); the geometric theorems (outward, normals, volume) are over the reals about the model's expressions (IEEE rounding not modelled) and are re-checked numerically on the implementation's own output",
-        "merge maps: that they identify exactly the vertices whose REAL model positions coincide is a theorem (uvSphereUnwelded_merge_exact, cylinder_merge_exact, cubeQuads_merge_exact, *_positions_distinct); that the implementation's float positions realise the same classes (merged within 1e-9*size, unmerged not) is checked on every run (c18.merge.*, <= 3000 vertices), and closedness is additionally evaluated with the merge map computed from the implementation's positions alone (c18.holds.closed_by_position)",
+        "six-quad box and cylinder bottom cap: the hand-written corner table cubeQuadsCornerTable and the (x,-y,-z) form are DERIVED (cubeQuads_positions_eq_table, cubeQuads_normals_eq_table, cylinder_positions_eq_exact_form, cylinder_normals_eq_exact_form) from a model of the construction in Cube.UnweldedQuads / Cylinder.ToMesh (six Quad.ToMesh meshes rotated by quaternion.FromTheta(k*pi/2, axis) through the regenerated Quaternion.Rotate and translated); what stays corresponded, not proved, is that this construction model (which quad dimensions, angles, axes, translations, Append order) is the code's: compared at Float on every run",
+        "merge maps: that they identify exactly the vertices whose REAL model positions (code-built for the six-quad box and the cylinder) coincide is a theorem (uvSphereUnwelded_merge_exact, cylinder_merge_exact, cubeQuads_merge_exact, *_positions_distinct); that the implementation's float positions realise the same classes (merged within 1e-9*size, unmerged not) is checked on every run (c18.merge.*, <= 3000 vertices), and closedness is additionally evaluated with the merge map computed from the implementation's positions alone (c18.holds.closed_by_position)",
         "outward = positive signed volume of every face against an interior point (star-shapedness); embeddedness, connectedness and vertex-manifoldness (one umbrella per vertex) are not stated separately; Closed is edge-manifoldness with consistent orientation",
         "hemisphere normals are not covered (the property lists sphere, box, cylinder; Hemisphere.UV's vertex-0 normal is NaN); the unwelded sphere supplies no normals",
         "cylinder with fewer than 3 sides and a cap panics in Circle.ToMesh (fix fc0d720): corresponded via Solids.cylinderAdmissible; degenerate pipes (no caps) are corresponded (indices, vertex count) but are not solids and carry no oracle",
@@ -48,7 +54,7 @@ CFG = dict(
     assumptions=["float64 arithmetic in Go on amd64 is IEEE-754 without FMA contraction",
                  "lengths (radius, height, box dimensions) in [0.01, 100]: the absolute tolerances and the 1e-9*size coincidence rule are calibrated for this range"],
     manifest=dict(
-        text="Lean 4 theorems, for ALL admissible parameters (no size bound), about a model of modeling/primitives: the index buffers of the UV sphere (welded; unwelded modulo its copy map), hemisphere (cap fan + dome), capped cylinder (modulo seam/cap-rim merge map) are closed consistently oriented surfaces (directed edges pairwise distinct, closed under reversal, no loops; proved via explicit twin blocks and omega on the loop indices), the welded box by decide on the cubeVertIndices table regenerated from cube.go on every run and the six-quad box modulo its corner table; over the reals every face has positive signed volume against an interior point (sphere: det = r^3 sin(phi) sin(pi/rows) sin(2pi/cols)), supplied normals of sphere, box and cylinder have positive dot product with every incident face normal, and the enclosed volumes have closed forms (box w*h*d; cylinder (S/2) sin(2pi/S) r^2 H; sphere (C r^3/3) sin(2pi/C)(1+cos(pi/R)); hemisphere likewise) bounded above by the analytic volume with explicit O(1/R^2+1/C^2) deficit. Tied to the code on every run: index lists, vertex counts and panics compared exactly with the Go constructors for every (rows, cols), sides <= 24 and sampled up to 512 with and without cap/UV options; positions and normals at Float; the merge maps against the implementation's geometry; and the theorems' predicates (closed modulo merge, outward, volume, normals outward) evaluated on the implementation's own meshes.",
-        note="Trusted: Lean kernel; propext/Classical.choice/Quot.sound; facts extractor c18.cube; harness and position-class computation; sort-based closedness check above 1200 edges (cross-checked below); sin/cos tolerance. Not proved: model = code (corresponded), IEEE rounding (the merge maps are proved exact over the reals and validated numerically on the implementation's floats), hemisphere normals (not in the property; vertex-0 normal is NaN).",
+        text="Lean 4 theorems, for ALL admissible parameters (no size bound), about a model of modeling/primitives: the index buffers of the UV sphere (welded; unwelded modulo its copy map), hemisphere (cap fan + dome), capped cylinder (modulo seam/cap-rim merge map) are closed consistently oriented surfaces (directed edges pairwise distinct, closed under reversal, no loops; proved via explicit twin blocks and omega on the loop indices), the welded box by decide on the cubeVertIndices table regenerated from cube.go on every run and the six-quad box modulo its corner table, which is itself proved from a model of the code's construction (six quads rotated by quaternion.FromTheta(k*pi/2, axis) through the regenerated Quaternion.Rotate, then translated; likewise the cylinder's bottom cap rotated by pi about X); the merge maps are proved to identify exactly the vertices whose real positions coincide; over the reals every face has positive signed volume against an interior point (sphere: det = r^3 sin(phi) sin(pi/rows) sin(2pi/cols)), supplied normals of sphere, box and cylinder have positive dot product with every incident face normal, and the enclosed volumes have closed forms (box w*h*d; cylinder (S/2) sin(2pi/S) r^2 H; sphere (C r^3/3) sin(2pi/C)(1+cos(pi/R)); hemisphere likewise) bounded above by the analytic volume with explicit O(1/R^2+1/C^2) deficit. Tied to the code on every run: index lists, vertex counts and panics compared exactly with the Go constructors for every (rows, cols), sides <= 24 and sampled up to 512 with and without cap/UV options; positions and normals at Float; the merge maps against the implementation's geometry; and the theorems' predicates (closed modulo merge, outward, volume, normals outward) evaluated on the implementation's own meshes.",
+        note="Trusted: Lean kernel; propext/Classical.choice/Quot.sound; facts extractor c18.cube; translator (Gen/Transform quaternion code); harness and position-class computation; sort-based closedness check above 1200 edges (cross-checked below); sin/cos tolerance. Not proved: model = code (corresponded), IEEE rounding (the merge maps are proved exact over the reals and validated numerically on the implementation's floats), hemisphere normals (not in the property; vertex-0 normal is NaN).",
         technique="Lean 4 proof for all parameters (List.range/flatMap combinatorics + omega; Mathlib trigonometry over the reals) + regenerated cube tables + exact index correspondence and oracle evaluation on the implementation's meshes"),
 )
